@@ -37,7 +37,7 @@ Lemma sched_all_as_run l reqs :
 Proof.
   revert l. induction reqs as [|[ts p] r IH]; intros l; simpl; [split; reflexivity|].
   destruct (el_schedule A l ts p) as [l'|] eqn:E.
-  - specialize (IH l'). destruct (el_run A l' (req_ops r)) as [l2 xs]. simpl in *. exact IH.
+  - specialize (IH l'). destruct (sched_all A l' r) as [l2 it]. destruct (el_run A l' (req_ops r)) as [l3 xs]. simpl in *. exact IH.
   - specialize (IH l). destruct (sched_all A l r) as [l2 it]. destruct (el_run A l (req_ops r)) as [l3 xs].
     simpl in *. exact IH.
 Qed.
@@ -49,7 +49,8 @@ Lemma sched_all_now l reqs : el_now (fst (sched_all A (T:=T) l reqs)) = el_now l
 Proof.
   revert l. induction reqs as [|[ts p] r IH]; intros l; simpl; [reflexivity|].
   destruct (el_schedule A l ts p) as [l'|] eqn:E.
-  - rewrite IH. unfold el_schedule in E. destruct (fltb A ts (el_now l)); [discriminate|]. injection E as <-. reflexivity.
+  - specialize (IH l'). destruct (sched_all A l' r). simpl in *. rewrite IH.
+    unfold el_schedule in E. destruct (fltb A ts (el_now l)); [discriminate|]. injection E as <-. reflexivity.
   - specialize (IH l). destruct (sched_all A l r). simpl in *. exact IH.
 Qed.
 
@@ -58,7 +59,7 @@ Lemma sched_all_prefix l reqs : exists added, el_q (fst (sched_all A (T:=T) l re
 Proof.
   revert l. induction reqs as [|[ts p] r IH]; intros l; simpl; [exists []; rewrite app_nil_r; reflexivity|].
   destruct (el_schedule A l ts p) as [l'|] eqn:E.
-  - destruct (IH l') as [ad Had]. rewrite Had.
+  - destruct (IH l') as [ad Had]. destruct (sched_all A l' r). simpl in *. rewrite Had.
     unfold el_schedule in E. destruct (fltb A ts (el_now l)); [discriminate|]. injection E as <-. simpl.
     rewrite <- app_assoc. eexists; reflexivity.
   - destruct (IH l) as [ad Had]. destruct (sched_all A l r). simpl in *. exists ad. exact Had.
@@ -70,7 +71,8 @@ Lemma sched_all_refused l reqs ts p :
 Proof.
   revert l. induction reqs as [|[ts' p'] r IH]; intros l; simpl; [intros []|].
   destruct (el_schedule A l ts' p') as [l'|] eqn:E.
-  - intros Hin. destruct (IH l' Hin) as [H1 H2]. split; [|right; exact H2].
+  - destruct (sched_all A l' r) as [l2 it] eqn:E2. simpl. intros [Heq|Hin]; [discriminate|].
+    specialize (IH l'). rewrite E2 in IH. destruct (IH Hin) as [H1 H2]. split; [|right; exact H2].
     unfold el_schedule in E. destruct (fltb A ts' (el_now l)); [discriminate|]. injection E as <-. exact H1.
   - destruct (sched_all A l r) as [l2 it] eqn:E2. simpl. intros [Heq|Hin].
     + injection Heq as <- <-. split; [|left; reflexivity]. apply el_schedule_refused_iff in E. exact E.
@@ -78,12 +80,14 @@ Proof.
 Qed.
 
 Lemma sched_all_only_refused l reqs it :
-  In it (snd (sched_all A (T:=T) l reqs)) -> exists ts p, it = KRefused ts p.
+  In it (snd (sched_all A (T:=T) l reqs)) -> (exists ts p, it = KRefused ts p) \/ (exists ts p, it = KSched ts p).
 Proof.
   revert l. induction reqs as [|[ts' p'] r IH]; intros l; simpl; [intros []|].
-  destruct (el_schedule A l ts' p') as [l'|]; [apply IH|].
-  specialize (IH l). destruct (sched_all A l r) as [l2 its]. simpl in *.
-  intros [<-|Hin]; [eexists; eexists; reflexivity|apply IH; exact Hin].
+  destruct (el_schedule A l ts' p') as [l'|].
+  - specialize (IH l'). destruct (sched_all A l' r) as [l2 its]. simpl in *.
+    intros [<-|Hin]; [right; eexists; eexists; reflexivity|apply IH; exact Hin].
+  - specialize (IH l). destruct (sched_all A l r) as [l2 its]. simpl in *.
+    intros [<-|Hin]; [left; eexists; eexists; reflexivity|apply IH; exact Hin].
 Qed.
 
 (* ---- invariants ------------------------------------------------------------------------- *)
@@ -143,8 +147,8 @@ Lemma execs_refused l reqs : execs (snd (sched_all A (T:=T) l reqs)) = [].
 Proof.
   pose proof (sched_all_only_refused l reqs) as Hr.
   induction (snd (sched_all A l reqs)) as [|it r IH]; [reflexivity|].
-  simpl. destruct (Hr it (or_introl eq_refl)) as [ts [p ->]]. simpl. apply IH.
-  intros it' Hin. apply Hr. right. exact Hin.
+  simpl. destruct (Hr it (or_introl eq_refl)) as [[ts [p ->]]|[ts [p ->]]]; simpl; apply IH;
+  intros it' Hin; apply Hr; right; exact Hin.
 Qed.
 
 Lemma execs_initialize s : execs (snd (k_initialize A hk s)) = [].
@@ -377,6 +381,131 @@ Proof.
       * rewrite I1, I2, (K1 Hab), seq_app. reflexivity.
       * intros Hna. rewrite (K2 Hna), (K1 Hab). lia.
     + split; [exact Hinv1|]. split; [exact S1|]. split; [exact N1|]. split; [exact B1|]. split; [exact I1|exact K1].
+Qed.
+
+(* ---- C02 for whole runs: every accepted request is executed exactly once ------------------- *)
+
+Definition key (e : event F P) : F * P := (ev_ts e, ev_pl e).
+Definition sched_of (it : kitem) : list (F * P) := match it with KSched ts p => [(ts, p)] | _ => [] end.
+Definition scheds (items : list kitem) : list (F * P) := flat_map sched_of items.
+Definition ekey (x : nat * F * P) : F * P := (snd (fst x), snd x).
+
+Lemma scheds_app a b : scheds (a ++ b) = scheds a ++ scheds b.
+Proof. unfold scheds. apply flat_map_app. Qed.
+Lemma scheds_user (ts : list T) : scheds (map (@KUser F P T) ts) = [].
+Proof. induction ts; simpl; auto. Qed.
+
+Lemma sched_all_keys l reqs :
+  map key (el_q (fst (sched_all A (T:=T) l reqs))) = map key (el_q l) ++ scheds (snd (sched_all A (T:=T) l reqs)).
+Proof.
+  revert l. induction reqs as [|[ts p] r IH]; intros l; simpl; [rewrite app_nil_r; reflexivity|].
+  destruct (el_schedule A l ts p) as [l'|] eqn:E.
+  - specialize (IH l'). destruct (sched_all A l' r) as [l2 it]. simpl in *. rewrite IH.
+    unfold el_schedule in E. destruct (fltb A ts (el_now l)); [discriminate|]. injection E as <-. simpl.
+    rewrite map_app, <- app_assoc. reflexivity.
+  - specialize (IH l). destruct (sched_all A l r) as [l2 it]. simpl in *. exact IH.
+Qed.
+
+Lemma k_initialize_keys s :
+  map key (el_q (k_el (fst (k_initialize A hk s)))) = map key (el_q (k_el s)) ++ scheds (snd (k_initialize A hk s)).
+Proof.
+  unfold k_initialize. destruct (hk_init hk (k_h s)) as [[h1 reqs] items].
+  pose proof (sched_all_keys (k_el s) reqs) as Hk. destruct (sched_all A (k_el s) reqs). simpl in *.
+  rewrite scheds_app, scheds_user. exact Hk.
+Qed.
+
+Lemma k_finalize_keys s :
+  map key (el_q (k_el (fst (k_finalize A hk s)))) = map key (el_q (k_el s)) ++ scheds (snd (k_finalize A hk s)).
+Proof.
+  unfold k_finalize. destruct (k_final s); [simpl; rewrite app_nil_r; reflexivity|].
+  destruct (hk_finish hk (k_h s) (el_now (k_el s))) as [[[h1 reqs] items] raised].
+  pose proof (sched_all_keys (k_el s) reqs) as Hk. destruct (sched_all A (k_el s) reqs). simpl in *.
+  rewrite scheds_app, scheds_user. exact Hk.
+Qed.
+
+Lemma init_part_keys s s1 i1 :
+  (s1, i1) = (if k_inited s then (s, []) else k_initialize A hk s) ->
+  map key (el_q (k_el s1)) = map key (el_q (k_el s)) ++ scheds i1.
+Proof.
+  destruct (k_inited s); cbn iota.
+  - intros [= -> ->]. simpl. rewrite app_nil_r. reflexivity.
+  - intros Heq.
+    assert (s1 = fst (k_initialize A hk s)) as -> by (rewrite <- Heq; reflexivity).
+    assert (i1 = snd (k_initialize A hk s)) as -> by (rewrite <- Heq; reflexivity).
+    apply k_initialize_keys.
+Qed.
+
+Lemma conserve_final items s2 K0 :
+  Permutation (K0 ++ scheds items) (map ekey (execs items) ++ map key (el_q (k_el s2))) ->
+  Permutation (K0 ++ scheds (items ++ snd (k_finalize A hk s2)))
+              (map ekey (execs (items ++ snd (k_finalize A hk s2))) ++ map key (el_q (k_el (fst (k_finalize A hk s2))))).
+Proof.
+  intros Hc. rewrite k_finalize_keys, scheds_app, execs_app, execs_finalize, app_nil_r.
+  rewrite !app_assoc. apply Permutation_app_tail. exact Hc.
+Qed.
+
+(** One step: what was queued plus what was accepted = what was executed plus what is queued. *)
+Lemma k_step_conservation s :
+  k_inv s ->
+  let '(s', it, b) := k_step A hk c s in
+  Permutation (map key (el_q (k_el s)) ++ scheds it) (map ekey (execs it) ++ map key (el_q (k_el s'))).
+Proof.
+  intros Hinv. pose proof (k_step_spec s) as Hs. destruct (k_step A hk c s) as [[s' it] b].
+  inversion Hs as [Hf | s1 i1 s2 i2 Hf Hi Hd Hfin
+                  | s1 i1 e l1 h2 reqs items l2 ref h3 aitems raised Hf Hi Hd Hpop Hexec Hsched Hafter s'' it'' b'' Heq]; subst.
+  - simpl. rewrite app_nil_r. reflexivity.
+  - destruct (init_part_inv _ _ _ Hinv Hi) as (Hi1 & Hn1 & He1).
+    pose proof (init_part_keys _ _ _ Hi) as Hk1.
+    assert (s' = fst (k_finalize A hk s1)) as -> by (rewrite <- Hfin; reflexivity).
+    assert (i2 = snd (k_finalize A hk s1)) as -> by (rewrite <- Hfin; reflexivity).
+    rewrite execs_app, He1, execs_finalize, scheds_app, k_finalize_keys, Hk1. simpl.
+    rewrite <- app_assoc. reflexivity.
+  - destruct (init_part_inv _ _ _ Hinv Hi) as (Hi1 & Hn1 & He1).
+    pose proof (init_part_keys _ _ _ Hi) as Hk1.
+    destruct (el_pop_spec A OL _ _ _ Hi1 Hpop) as (Hin & Hmin & Hperm & Hnow & Hseq & Hle).
+    pose proof (sched_all_keys l1 reqs) as Hk2. rewrite Hsched in Hk2. simpl in Hk2.
+    pose proof (execs_refused l1 reqs) as Hex. rewrite Hsched in Hex. simpl in Hex.
+    assert (Hq : Permutation (map key (el_q (k_el s1))) (key e :: map key (el_q l1))).
+    { change (key e :: map key (el_q l1)) with (map key (e :: el_q l1)). apply Permutation_map, Permutation_sym. exact Hperm. }
+    set (body := KExec (k_iter s1) (ev_ts e) (ev_pl e) :: map (@KUser F P T) items ++ ref ++ map (@KUser F P T) aitems) in *.
+    assert (Hbe : map ekey (execs body) = [key e]).
+    { unfold body. simpl. rewrite !execs_app, !execs_user, Hex. reflexivity. }
+    assert (Hbs : scheds body = scheds ref).
+    { unfold body. simpl. rewrite !scheds_app, !scheds_user, app_nil_r. reflexivity. }
+    assert (Hcore : Permutation (map key (el_q (k_el s)) ++ scheds (i1 ++ body))
+                                (map ekey (execs (i1 ++ body)) ++ map key (el_q l2))).
+    { rewrite scheds_app, execs_app, He1, Hbs. change ([] ++ execs body) with (execs body).
+      rewrite Hbe, app_assoc, <- Hk1, Hk2, Hq. reflexivity. }
+    cbv zeta in Heq. fold body in Heq.
+    destruct raised.
+    + injection Heq as -> -> ->. exact Hcore.
+    + set (s2 := mkK l2 h3 (S (k_iter s1)) true false false) in *.
+      destruct (k_done A c s2).
+      * destruct (k_finalize A hk s2) as [s3 i3] eqn:E3. injection Heq as -> -> ->.
+        assert (s3 = fst (k_finalize A hk s2)) as -> by (rewrite E3; reflexivity).
+        assert (i3 = snd (k_finalize A hk s2)) as -> by (rewrite E3; reflexivity).
+        apply (conserve_final (i1 ++ body) s2 (map key (el_q (k_el s)))) in Hcore.
+        rewrite <- app_assoc in Hcore. exact Hcore.
+      * injection Heq as -> -> ->. exact Hcore.
+Qed.
+
+(** Whole runs: at every prefix of a run, the events queued at the start plus all requests
+    accepted so far are, as a multiset, the events executed so far plus the events still
+    queued.  Hence nothing is executed that was not requested, nothing twice, and a run that
+    ends with an empty queue has executed every accepted request exactly once. *)
+Theorem k_run_conservation fuel s :
+  k_inv s ->
+  let '(s', items, fin) := k_run A hk c fuel s in
+  Permutation (map key (el_q (k_el s)) ++ scheds items) (map ekey (execs items) ++ map key (el_q (k_el s'))).
+Proof.
+  revert s. induction fuel as [|f IH]; intros s Hinv; simpl.
+  - rewrite app_nil_r. reflexivity.
+  - pose proof (k_step_conservation s Hinv) as Hc. pose proof (k_step_inv s Hinv) as Hinv1.
+    destruct (k_step A hk c s) as [[s1 it] cont]. simpl in Hinv1.
+    destruct cont; [|exact Hc].
+    specialize (IH s1 Hinv1). destruct (k_run A hk c f s1) as [[s2 its] fin].
+    rewrite scheds_app, execs_app, map_app, app_assoc, Hc, <- !app_assoc.
+    apply Permutation_app_head. exact IH.
 Qed.
 
 End KernelP.
